@@ -73,23 +73,26 @@ Ann(k, s, n, id) == [key |-> k, scope |-> s, name |-> n, id |-> id]
 \* one key: every subset of {own container, other container, pod, bare}, each with its own payload
 Slots(k, n) == {Ann(k, "ctr", n, Good(k)[1]), Ann(k, "ctr", Other(n), Good(k)[2]), Ann(k, "pod", "", Good(k)[3]),
                 Ann(k, "bare", "", Good(k)[4])}
-PerKey == {[ctr |-> n, anns |-> S] : n \in Names, S \in UNION {SUBSET Slots(k, n) : k \in Keys}}
+PerKey == UNION {{[ctr |-> n, anns |-> S] : S \in UNION {SUBSET Slots(k, n) : k \in Keys}} : n \in Names}
+SeqToSetIds(k) == {Good(k)[i] : i \in 1..4} \cup Bad(k)
 \* malformed payloads: at the selected scope (must fail) and at a scope that is not selected (must be ignored)
 BadOnes ==
-  {[ctr |-> n, anns |-> {Ann(k, s, IF s = "ctr" THEN nm ELSE "", b)} \cup extra] :
-     n \in {"c1", "a.b"}, k \in Keys, b \in UNION {Bad(x) : x \in Keys}, s \in {"ctr", "pod", "bare"}, nm \in {n, Other(n)},
-     extra \in {{}, {Ann(k, "ctr", n, Good(k)[1])}, {Ann("dev", "pod", "", "D3"), Ann("ulim", "ctr", n, "U1")}}}
-BadOK == {x \in BadOnes : \A a \in x.anns : a.id \in SeqToSetIds(a.key)}
-SeqToSetIds(k) == {Good(k)[i] : i \in 1..4} \cup Bad(k)
+  UNION {UNION {
+    {[ctr |-> n, anns |-> {Ann(k, s, IF s = "ctr" THEN nm ELSE "", b)} \cup extra] :
+       b \in Bad(k), s \in {"ctr", "pod", "bare"}, nm \in {n, Other(n)},
+       extra \in {{}, {Ann(k, "ctr", n, Good(k)[1])}, {Ann("dev", "pod", "", "D3"), Ann("ulim", "ctr", n, "U1")}}}
+    : k \in Keys} : n \in {"c1", "a.b"}}
 \* all four keys at once
 Combined ==
   {[ctr |-> n, anns |-> UNION {{Ann(k, sk[k], IF sk[k] = "ctr" THEN n ELSE "", Good(k)[1])} : k \in Keys}] :
      n \in Names, sk \in [Keys -> {"ctr", "pod", "bare"}]}
   \cup {[ctr |-> "c1", anns |-> {Ann("ulim", "ctr", "c1", "Uempty")}], [ctr |-> "c1", anns |-> {}]}
 
+\* one annotation per (key, scope, addressee): they are keys of one map
+Distinct(anns) == \A a, b \in anns : (a.key = b.key /\ a.scope = b.scope /\ a.name = b.name) => a = b
 Scenarios ==
   CASE Mode = "perkey" -> PerKey
-    [] Mode = "bad" -> {x \in BadOnes : \A a \in x.anns : a.id \in SeqToSetIds(a.key)}
+    [] Mode = "bad" -> {x \in BadOnes : Distinct(x.anns)}
     [] Mode = "combined" -> Combined
 
 GInit == sc \in Scenarios /\ emitted = FALSE
